@@ -76,7 +76,12 @@ func opBatch(c Obj) J {
 		}
 		xdec, xdiag := cedar.Authorize(set, tmpl.Store, r.Request)
 		cross := diagToJ(xdec, xdiag, func(s string) string { return s })
-		call := Obj{"values": vals,
+		errs := []string{}
+		for _, x := range r.Diagnostic.Errors {
+			errs = append(errs, string(x.PolicyID)+": "+x.Message)
+		}
+		sort.Strings(errs)
+		call := Obj{"errs": strs(errs), "values": vals,
 			"request":  Obj{"p": cwf.ValueToJ(r.Request.Principal), "a": cwf.ValueToJ(r.Request.Action), "r": cwf.ValueToJ(r.Request.Resource), "c": cwf.ValueToJ(r.Request.Context)},
 			"decision": dec, "reasons": strs(reasons),
 			"cross": cross["decision"] == dec && cwf.Canon(cross["reasons"]) == cwf.Canon(strs(reasons))}
